@@ -220,6 +220,7 @@ let run (toks : string list) : string =
                 | Hap.RChars (st, es) -> Printf.sprintf "%d:%s" (int_of_n st) (entries_str es)
                 | Hap.RRefused470 -> "470" | r -> resp_tlv r))
           end
+        | ["STALL"; c; _; _; _] -> emit (if alive c then "STALL=ok" else "STALL=noconn")
         | ["STORM"; c; _n] ->
           (* n local changes while the subscribed connection keeps sending requests: every interleaving delivers each change
              once, in order (C10_exactly_the_subscribed_others per change); the scenario ends here *)
